@@ -484,16 +484,18 @@ func runFG(c *Ctx, over bool) []*ssa.Function {
 		if u.pkgPathOf(f) != rtPath || f.Synthetic != "" || returnsHeader(f) {
 			continue
 		}
-		// only functions that interpret a payload (hand a header on to a function that reads from the source) are readers;
-		// listing functions belong to C16
+		// only functions that interpret a payload (hand a header on to a function that reads from the source — themselves
+		// or in a helper of the runtime they call) are readers; listing functions belong to C16
 		interprets := false
-		for _, b := range f.Blocks {
-			for _, ins := range b.Instrs {
-				if c2, ok := ins.(*ssa.Call); ok {
-					if sc2 := c2.Call.StaticCallee(); sc2 != nil && u.InUniverse(sc2) && ops.intrinsic[sc2] && !reachesHdr(sc2) {
-						for _, a := range c2.Call.Args {
-							if isHeaderType(a.Type()) {
-								interprets = true
+		for _, g := range unitFns(u, f) {
+			for _, b := range g.Blocks {
+				for _, ins := range b.Instrs {
+					if c2, ok := ins.(*ssa.Call); ok {
+						if sc2 := c2.Call.StaticCallee(); sc2 != nil && u.InUniverse(sc2) && ops.intrinsic[sc2] && !reachesHdr(sc2) {
+							for _, a := range c2.Call.Args {
+								if isHeaderType(a.Type()) {
+									interprets = true
+								}
 							}
 						}
 					}
@@ -501,6 +503,17 @@ func runFG(c *Ctx, over bool) []*ssa.Function {
 			}
 		}
 		if !interprets {
+			continue
+		}
+		// the outermost such function is the consumer: a helper that reads and interprets one page on behalf of a caller
+		// in the runtime that goes on with the page is walked as part of that caller
+		inner := false
+		for _, cs := range callersOf(f) {
+			if p := cs.Parent(); p != nil && p != f && u.pkgPathOf(p) == rtPath && p.Synthetic == "" {
+				inner = true
+			}
+		}
+		if inner {
 			continue
 		}
 		for _, b := range f.Blocks {
